@@ -18,6 +18,7 @@ L2 ops are handled by `ArvVerif.C14.poolStep` (prefix `pl`), L3 by `protoStep` (
 import ArvVerif.Base.Loop
 import ArvVerif.Model.C14
 import ArvVerif.Model.C14_Pool
+import ArvVerif.Model.C14_Runner
 import ArvVerif.Model.C14_Queue
 import ArvVerif.Model.C14_Proto
 open ArvVerif ArvVerif.C14
@@ -209,6 +210,8 @@ def stepL1 (f : List String) : Option String :=
      ops      st<t>:<u>  StartContainer → w<id> | w0          sd<u>   oldest pending start of u completes
               kl<u>  KillContainer → 0|1                        fg<u>   ForgetContainer
               rn     Running() → keys ('x' suffix = exited)     cr<w>:<u>  onKilled → closeRunner
+              kg<u>:<g>  KillContainer, kill loop gives up → 0|1   kb<u>  KillContainer, first signal blocked → 0|1
+              ke<u>:<ok>  the blocked signal returns (1 = process gone → onKilled)
               sh<w>  shutdown                                   ib<w>:<r|h|d>:<allGivenUp>  SetIdleBehavior
               th     threshold := now                           sy<retry>:<id.type.tag.created/…>  Pool.sync
               pb<w>:<timedOut>  probe begins                    pm<w>:<bootok>  boot probe returns
@@ -229,6 +232,8 @@ structure PSt where
   probes : List (Nat × PPhase)
   threshold : Nat
   out : List String
+  /-- kill loops (worker, container) whose first `crunch-run --kill` is blocked at the gate -/
+  kills : List (Nat × Nat) := []
 
 def parseUs (s : String) : Option (List Nat) :=
   if s == "-" || s == "" then some [] else (s.splitOn "/").mapM (·.toNat?)
@@ -309,6 +314,37 @@ def poolOp (s : PSt) (op : String) : Option (List PSt) := do
   | "kl", [u] =>
     let u ← u.toNat?
     pure [{ s with out := s.out ++ [b2s (s.pool.killContainer u)] }]
+  | "kg", [u, g] =>
+    -- KillContainer(u) on a runner whose SIGTERM deadline has passed at its first tick: `Worker.killTick`
+    -- with `pastDeadline` on whichever worker KillContainer meets first (map order)
+    let u ← u.toNat?; let g ← parseBool g
+    let cands := s.pool.killCandidates u
+    if cands.isEmpty then pure [{ s with out := s.out ++ ["0"] }]
+    else cands.mapM (fun wid => do
+      let w ← s.pool.find wid
+      -- the runners of the worker other than the one KillContainer picks (`running[u]`, else `starting[u]`)
+      let others := w.running.filter (· != u) ++
+        (if w.running.contains u then w.starting else w.starting.filter (· != u))
+      let t := w.killTick u { stopping := true } true false (g || others.isEmpty) now
+      pure { s with pool := s.pool.put t.1, out := s.out ++ ["1"] })
+  | "kb", [u] =>
+    let u ← u.toNat?
+    let cands := s.pool.killCandidates u
+    if cands.isEmpty then pure [{ s with out := s.out ++ ["0"] }]
+    else pure (cands.map (fun wid => { s with kills := s.kills ++ [(wid, u)], out := s.out ++ ["1"] }))
+  | "ke", [u, ok] =>
+    -- the blocked signal returns: success → `onKilled` (`Worker.killTick` with `killOk`), error → nothing
+    let u ← u.toNat?; let ok ← parseBool ok
+    match s.kills.find? (fun q => q.2 == u) with
+    | none => pure [s]
+    | some q =>
+      let s := { s with kills := s.kills.erase q }
+      match s.pool.find q.1 with
+      | none => pure [s]
+      | some w =>
+        let t := w.killTick u { stopping := true } false ok false now
+        let p := s.pool.put t.1
+        pure [{ s with pool := if t.2.2.2 then p.markExited [u] now else p }]
   | "fg", [u] => pure [{ s with pool := s.pool.forget (← u.toNat?) }]
   | "rn", [""] =>
     let keys := (sortNat s.pool.runningKeys).eraseDups
@@ -387,7 +423,7 @@ def runPl (ws ex ops : String) : Option String := do
   let exited ← (splitList ex).mapM (fun x => match x.splitOn ":" with
     | [u, t] => do pure ((← u.toNat?), (← t.toNat?))
     | _ => none)
-  let init : PSt := ⟨⟨workers, exited⟩, 1000, [], [], 0, []⟩
+  let init : PSt := ⟨⟨workers, exited⟩, 1000, [], [], 0, [], []⟩
   let finals ← (splitList ops).foldlM (fun (sts : List PSt) op => do
     let nexts ← sts.mapM (fun s => poolOp s op)
     pure nexts.flatten) [init]
